@@ -104,7 +104,7 @@ class Prop(core.Prop):
 
     def expand(self, group):
         if 'ioapi' in group:
-            for d in ('LAY', 'ROW', 'COL'):
+            for d in ('LAY', 'ROW', 'COL') + (() if group['ioapi'].get('uneven_flags') else ('TSTEP',)):
                 for f in FN:
                     yield {'ioapi': group['ioapi'], 'funcs': [[d, list(f)]]}
             return
@@ -184,6 +184,23 @@ class Prop(core.Prop):
             return result('viol', vs, states)
         snap = lib.snap(got)
         exp0 = exps[0]
+        if d_ == 'TSTEP' and 'TFLAG' in got.variables.keys() and len(got.dimensions['TSTEP']) >= 1:
+            # the time flags are metadata, not data: whatever the function, they are dates again afterwards -
+            # the series that starts at SDATE/STIME and advances by TSTEP
+            from ..ref import rtime
+            tf1 = np.asarray(got.variables['TFLAG'][...])
+            n1 = len(got.dimensions['TSTEP'])
+            try:
+                want_t = [rtime.to_ioapi(t_) for t_ in rtime.ioapi_times(int(got.SDATE), int(got.STIME),
+                                                                       int(got.TSTEP), n1)]
+                got_t = [(int(a_), int(b_)) for a_, b_ in tf1[:, 0, :]]
+                okflags = got_t == [tuple(w_) for w_ in want_t] and float(tf1[0, 0, 0]) == int(tf1[0, 0, 0])
+            except Exception:
+                okflags, got_t, want_t = False, tf1[:, 0, :].tolist(), None
+            if not okflags:
+                vs.append(viol('time-flags-not-dates', sig + ('TFLAG',), 'after %s along TSTEP the flags are %s, '
+                               'SDATE/STIME/TSTEP say %s' % (fcls, got_t[:3], want_t[:3] if want_t else None),
+                               funcs=fcls, ioapi=True, varkind='tflag'))
         if d_ != 'TSTEP' and 'TFLAG' in got.variables.keys():
             tf1 = np.asarray(got.variables['TFLAG'][...])
             if tf1.shape != tflag0.shape or not np.array_equal(tf1, tflag0):
